@@ -1352,3 +1352,12 @@ package machine
 //@   loop 8 invariant done: WhenClosed(sm) && WhenTimeClosed(sm) && WhenArgsClosed(sm) && QueueEndsClosed(sm, idx8)
 //@   loop 9 invariant done: WhenClosed(sm) && WhenTimeClosed(sm) && WhenArgsClosed(sm) && QueueEndsClosed(sm, len(sm.whenQueueEnds)) && QueueClosed(sm, idx9)
 //@   loop 10 invariant done: WhenClosed(sm) && WhenTimeClosed(sm) && WhenArgsClosed(sm) && QueueEndsClosed(sm, len(sm.whenQueueEnds)) && QueueClosed(sm, len(sm.whenQueue)) && QueryClosed(sm, idx10)
+
+// ---- C17 / C20: time-slice helpers used by the history queries ----
+
+//@ func (t Time) Filter(idxs []int) (ret Time)
+//@   props C17 C20
+//@   requires idx: forall i int :: 0 <= i && i < len(idxs) ==> idxs[i] >= 0
+//@   ensures  len: len(ret) == len(idxs) && fresh(ret)
+//@   ensures  def: forall i int :: 0 <= i && i < len(idxs) ==> ret[i] == (idxs[i] < len(t) ? t[idxs[i]] : 0)
+//@   loop 1 invariant def: len(ret) == len(idxs) && fresh(ret) && !isnil(ret) && (forall j int :: 0 <= j && j < len(idxs) ==> ret[j] == ((j < idx1 && idxs[j] < len(t)) ? t[idxs[j]] : 0))
